@@ -23,6 +23,9 @@ var (
 	// supported by the compiler, this indicates an error in the compiler
 	// itself, as all parseable evy expressions should be supported.
 	ErrUnsupportedExpression = fmt.Errorf("%w: unsupported expression", ErrInternal)
+	// ErrUnsupportedNode is returned when the compiler has no translation
+	// for an AST node yet, instead of silently leaving the node out.
+	ErrUnsupportedNode = fmt.Errorf("%w: unsupported node", ErrInternal)
 )
 
 // Compiler is responsible for turning a parsed evy program into
@@ -119,6 +122,10 @@ func (c *Compiler) Compile(node parser.Node) error {
 		if err := c.emit(OpMap, len(node.Pairs)); err != nil {
 			return err
 		}
+	case *parser.EmptyStmt:
+		// nothing to translate
+	default:
+		return fmt.Errorf("%w: %T", ErrUnsupportedNode, node)
 	}
 	return nil
 }
@@ -476,7 +483,7 @@ func (c *Compiler) compileUnaryExpression(expr *parser.UnaryExpression) error {
 	case parser.OP_BANG:
 		return c.emit(OpNot)
 	}
-	return nil
+	return fmt.Errorf("%w %s", ErrUnknownOperator, expr.Op)
 }
 
 func (c *Compiler) compileProgram(prog *parser.Program) error {
@@ -516,7 +523,7 @@ func (c *Compiler) compileAssignment(stmt *parser.AssignmentStmt) error {
 		}
 		return c.emit(OpSetIndex)
 	}
-	return c.Compile(stmt.Target)
+	return fmt.Errorf("%w: assignment target %T", ErrUnsupportedNode, stmt.Target)
 }
 
 func (c *Compiler) compileVar(variable *parser.Var) error {
